@@ -70,6 +70,13 @@ def extras : List String → List String
     | _ => extras r
 
 def handle : List String → Option String
+  | "valid" :: "typed" :: h :: _ =>
+    -- typed destinations: only the two grammars are asked (the compiled decoders are not the FSM)
+    (unhexArg h).map fun s =>
+      let big := s.length + 1
+      let a := b01 (wholeB big .strict s)
+      let b := b01 (wholeB big .dflt s)
+      s!"model={a}{b}\tstrict={a}\tstructural={b}\tstrictB={b01 (wholeB maxRecurse .strict s)}\tdepth={nesting s 0 0 false}"
   | "valid" :: _api :: h :: more =>
     (unhexArg h).map fun s =>
       let w := [123, 34, 114, 34, 58] ++ s ++ [125]
